@@ -20,9 +20,8 @@ AmpNow(s) == AmpAt(s.init, s.future, s.height, s.start, s.stop)
 DOf(r, amp) == Dstar3(r[1], r[2], r[3], amp)
 Max3(r) == NMax(r[1], NMax(r[2], r[3]))
 Min3(r) == NMin(r[1], NMin(r[2], r[3]))
-\* reserves a million-fold apart (before or after): the Newton iterations lose many digits there (finding S20)
-Apart(r, t) == (N(1000000) ** NMax(One, NMin(Min3(r), Min3(t)))) \preceq NMax(Max3(r), Max3(t))
-Sfx(r, t) == IF Apart(r, t) THEN "(reserves-a-million-fold-apart)" ELSE ""
+\* how lopsided the pool is (before or after the step): square root of largest over smallest reserve
+Lop(r, t) == Lopsided(NMax(Max3(r), Max3(t)), NMin(Min3(r), Min3(t)))
 
 SamePool(s, t) == t.res = s.res /\ t.S = s.S /\ t.fee = s.fee /\ t.bal = s.bal
 SameRamp(s, t) == t.init = s.init /\ t.future = s.future /\ t.start = s.start /\ t.stop = s.stop
@@ -65,28 +64,22 @@ SwapChecks(s, f, i, j, k, offer, curveOut, o, t) ==
       D0 == DOf(s.res, amp)
       D1 == DOf(t.res, amp)
       up == [t.res EXCEPT ![j] = t.res[j] ++ One]
-      dustD == N(8) ** ((DOf(up, amp) -- D1) ++ Two)
-      sfx == Sfx(s.res, t.res)
+      dustD == (N(8) ++ Lop(s.res, t.res)) ** ((DOf(up, amp) -- D1) ++ Two)
   IN << <<"C04.swap.proceeds+fees=curve-output", IsNum(curveOut) /\ Gross(o) = curveOut>>,
         <<"C04.swap.fees=floor(share*gross)",
            o.sf = MulFloor(Gross(o), f.s) /\ o.pf = MulFloor(Gross(o), f.p) /\ o.bf = MulFloor(Gross(o), f.b)>>,
         <<"C04.swap.reserves-fee-ledger-and-balances-move-by-the-swap",
            Gross(o) \preceq s.res[j] /\ t.res = SwapNext(s, i, j, offer, o).res /\ t.fee = SwapNext(s, i, j, offer, o).fee
            /\ t.bal = SwapNext(s, i, j, offer, o).bal /\ t.S = s.S>>,
-        <<"C04.swap.invariant-per-LP-never-decreases" \o sfx, D0 \preceq D1>>,
-        <<"C04.swap.invariant-decrease-within-rounding-dust" \o sfx, D0 \preceq D1 \/ D0 \preceq (D1 ++ dustD)>>,
+        <<"C04.swap.invariant-per-LP-never-decreases", D0 \preceq D1>>,
+        <<"C04.swap.invariant-decrease-within-rounding-dust", D0 \preceq D1 \/ D0 \preceq (D1 ++ dustD)>>,
         <<"C04.ramp-untouched", SameRamp(s, t)>> >>
 SimChecks(sim, o) ==
   << <<"C14.trio.simulation=execution",
         sim.res = "ok" /\ sim.ret = o.ret /\ sim.sf = o.sf /\ sim.pf = o.pf /\ sim.bf = o.bf /\ sim.spread = o.spread>> >>
 
 \* ---- deposit ----------------------------------------------------------------------------------------------------
-\* minted / S <= (D1 - D0) / D0; Dstar is the floor of the real root, so the literal clause only fails on a real excess
-MintChecks(sfx, m, S, D0, D1) ==
-  LET lit == (m ** D0) \preceq (S ** ((D1 ++ One) -- D0))
-  IN << <<"C04.deposit.mint<=proportional-increase-of-the-invariant" \o sfx, lit>>,
-        <<"C04.deposit.mint-excess-within-rounding-dust" \o sfx,
-           lit \/ (D0 \succ N(16) /\ ((m -- One) ** (D0 -- N(16))) \preceq (S ** ((D1 -- D0) ++ N(32))))>> >>
+\* the mint clauses are Stable!MintChecks (literal clause + rounding-dust clause), in raw base units
 ProvideChecks(s, d, curveMint, minted, t) ==
   LET amp == AmpNow(s) IN
   << <<"C04.provide.reserves-balances-and-supply-grow-by-the-deposit",
@@ -94,7 +87,7 @@ ProvideChecks(s, d, curveMint, minted, t) ==
         /\ t.S = s.S ++ minted /\ t.fee = s.fee>>,
      <<"C04.provide.mint=curve-mint", IsNum(curveMint) /\ minted = curveMint>>,
      <<"C04.ramp-untouched", SameRamp(s, t)>> >>
-  \o MintChecks(Sfx(s.res, t.res), minted, s.S, DOf(s.res, amp), DOf(t.res, amp))
+  \o MintChecks("C04", "", minted, s.S, DOf(s.res, amp), DOf(t.res, amp), N(16) ++ Lop(s.res, t.res))
 
 \* ---- withdrawal -------------------------------------------------------------------------------------------------
 WithdrawChecks(s, amt, t) ==
